@@ -14,6 +14,7 @@ the type part is the table below, proved over the real type-deciding code:
    iterable_loader.field_type   : one python type in the sample -> its Table Schema type; several or none -> any
 """
 from contracts.common import Item, mk_resource, mk_package2, expect_no_raise_or_same, _b, field_tree
+from contracts import base as BA
 from contracts import C15 as K15, C16 as K16, C17 as K17, C11 as K11, C14 as K14, C10 as K10
 
 P = 'dataflows/processors/'
@@ -263,6 +264,10 @@ def nat_shapes(h):
                        lambda: Flow(*four(), checkpoint('c', checkpoint_path=d), delete_resource(sel)).results(), want)
         finally:
             shutil.rmtree(d, ignore_errors=True)
+    # resources added after others were deleted: auto-generated names stay unique (and name-based selectors keep hitting one resource)
+    conformant(('iterable after delete_resource',), lambda: Flow(*four()[:3], delete_resource(0), four()[3]).results(), [3, 2, 4])
+    conformant(('iterable after delete_resource, then delete by position',),
+               lambda: Flow(*four()[:3], delete_resource(0), four()[3], delete_resource(2)).results(), [3, 2])
     conformant(('duplicate in the middle',), lambda: Flow(*four(), duplicate('res_2', target_name='copy', target_path='copy.csv')).results(),
                [2, 3, 3, 2, 4])
     for mode, want in (('inner', [2]), ('half-outer', [3]), ('full-outer', [5])):
@@ -274,6 +279,7 @@ def nat_shapes(h):
 
 ITEMS = [
     Item('shapes', None, [('deterministic', nat_shapes)], P + 'concatenate.py::concatenate.func'),
+    Item('iterable_loader.naming', BA.sym_iterable_loader_naming, [], 'dataflows/helpers/iterable_loader.py::iterable_loader.process_datapackage'),
     Item('delete_resource.func', K10.sym_delete_resource, [], P + 'delete_resource.py::delete_resource.func'),
     Item('join.types', sym_join_types, [('conformance', nat_conformance)], P + 'join.py::join_aux.process_target_resource'),
     Item('add_computed_field.get_type', sym_get_type, [], P + 'add_computed_field.py::get_type'),
